@@ -11,7 +11,12 @@ minimised past failures, random bytes, bit/byte/splice mutations of valid HTTP/1
 grammar-generated legal-but-rare HTTP/2 sessions in every segmentation class.  Judged on the implementation's observations:
 the handler ends without an exception (or keeps serving) and nothing reaches the loop's exception handler / the nursery;
 malformed HTTP/1 gets exactly the hinted 4xx with `connection: close` and a close; an HTTP/2 protocol violation gets
-GOAWAY / close; sibling streams complete and are equal to the run without the odd stream."""
+GOAWAY / close; sibling streams complete and are equal to the run without the odd stream.
+
+Both layers, deterministic and first (`REFUSED_CLOSED_FAMILY`): a request the full priority tree has no room for whose stream
+or connection the client has already closed in the same read (RST_STREAM / GOAWAY behind the HEADERS frame), so that the
+`reset_stream(REFUSED_STREAM)` of the refusal itself raises - next to the plain refusal, a reset in the next read and a second
+refused request, among 0-2 ordinary requests that must complete."""
 from __future__ import annotations
 
 import random
@@ -801,6 +806,23 @@ def check_e2e(ctx: Ctx, cases: List[dict]) -> None:
                     if a != b:
                         ctx.violation("sibling_differs_from_run_without_odd_stream", rcase, {"sid": sib, "with": a, "without": b}, {**sig, "clause2": "noninterference"})
                 ctx.traces_validated += 1
+            elif case["family"] == "h2_refused":
+                sig = {"family": case["family"], "proto": "h2", "name": case["name"]}
+                # the fault stays on its stream: every ordinary request completed, no application ran for the refused one, it was
+                # not answered as if served, and the connection was not failed (GOAWAY only as NO_ERROR / in answer to the client's)
+                for sib in case["sibs"]:
+                    v = sibling_view(view, sib)
+                    if not (v["status"] == 200 and v["ended"] and v["data"] == "ok" and v["reset"] is None):
+                        ctx.violation("sibling_incomplete", rcase, {"sid": sib, "view": v, "goaway": view["goaway"]}, {**sig, "clause2": "sibling"})
+                if view["goaway"] is not None and view["goaway"]["error_code"] != 0:
+                    ctx.violation("stream_fault_became_connection_fault", rcase, view["goaway"], sig)
+                v = sibling_view(view, case["refused"])
+                ctx.count("e2e.refused_request", f"{case['how']}:{'reset ' + str(v['reset']) if v['reset'] is not None else 'status ' + str(v['status'])}")
+                if len(res["apps"]) != len(case["sibs"]) or v["status"] is not None:
+                    ctx.violation("refused_request_reached_application", rcase, {"apps": [a["scope"]["path"] for a in res["apps"]], "view": v}, sig)
+                if case["how"] in ("plain", "rst_next_read") and v["reset"] != 7:
+                    ctx.violation("refused_request_not_refused", rcase, v, sig)
+                ctx.traces_validated += 1
             elif case["family"] == "h2_rare":
                 r = case["rare"]
                 sig = {"family": case["family"], "proto": "h2", "rare": r["rare"]}
@@ -822,6 +844,79 @@ WS_MSGS = [{"type": "websocket.accept"}, {"type": "websocket.send", "text": "hi"
 WS_DENY = [{"type": "websocket.http.response.start", "status": 403, "headers": []}, {"type": "websocket.http.response.body", "body": b"no"}, None]
 APP_FAMILIES = {"ok": HTTP_MSGS, "streaming": HTTP_STREAMING, "abandon": HTTP_ABANDON, "crash_early": HTTP_CRASH_EARLY, "ws": WS_MSGS, "ws_deny": WS_DENY,
                 "silent": []}
+
+
+# ------------------------------------------------------------------------------------------------------------
+# a request refused for want of room in the priority tree whose stream (or connection) is already closed
+# ------------------------------------------------------------------------------------------------------------
+# Set to False to leave the family out (direct drive and end to end).
+REFUSED_CLOSED_FAMILY = True
+REFUSED_HOWS = ["plain", "rst_same_read", "goaway_same_read", "rst_next_read", "two_one_reset", "rst_same_read_body"]
+
+
+def refused_session(n_before: int, flood: int, how: str, chain: bool = False) -> Tuple[List[bytes], int, List[int]]:
+    """reads: preface, `n_before` ordinary requests, PRIORITY frames for `flood` idle streams (the tree holds 1000), then a
+    request the tree has no room for - alone (`plain`: reset with REFUSED_STREAM), with the client's own RST_STREAM or GOAWAY
+    behind it in the SAME read (h2 has parsed the whole read before the first event is handled: by then the stream / the
+    connection is closed and `reset_stream` raises ProtocolError), reset in the next read, or next to a second refused request
+    that is not reset; then one more request.  Returns (reads, the refused stream, the ordinary streams)"""
+    F = H.Frames()
+    reads = [F.preface()]
+    sibs = [2 * i + 1 for i in range(n_before)]
+    for sid in sibs:
+        reads.append(F.headers(sid, H.req_headers("get")))
+    reads.append(b"".join(F.priority(3001 + 2 * i, (3001 + 2 * i - 2) if (chain and i and i < 90) else 0, (i * 7) % 256) for i in range(flood)))
+    # an ordinary request that is answered meanwhile leaves the tree: a few more idle streams take its place
+    reads.append(b"".join(F.priority(9001 + 2 * i, 0) for i in range(n_before + 3)))
+    sid = 2 * n_before + 1
+    if how == "plain":
+        reads.append(F.headers(sid, H.req_headers("get")))
+    elif how == "rst_same_read":
+        reads.append(F.headers(sid, H.req_headers("get")) + F.rst(sid, 8))
+    elif how == "rst_same_read_body":
+        reads.append(F.headers(sid, H.req_headers("post"), end_stream=False) + F.data(sid, b"abc") + F.rst(sid, 8))
+    elif how == "goaway_same_read":
+        reads.append(F.headers(sid, H.req_headers("get")) + F.goaway(sid))
+    elif how == "rst_next_read":
+        reads += [F.headers(sid, H.req_headers("get")), F.rst(sid, 8)]
+    elif how == "two_one_reset":
+        reads.append(F.headers(sid, H.req_headers("get")) + F.headers(sid + 2, H.req_headers("get")) + F.rst(sid, 8))
+    if how != "goaway_same_read":
+        reads.append(F.headers(sid + 4, H.req_headers("get")))
+    return reads, sid, sibs
+
+
+def refused_direct_cases() -> List[dict]:
+    out = []
+    for n_before in (0, 1, 2):
+        for k, how in enumerate(REFUSED_HOWS):
+            for flood in ((1001, 1100)[(k + n_before) % 2],):
+                reads, sid, sibs = refused_session(n_before, flood, how, chain=(k + n_before) % 2 == 1)
+                steps: List[dict] = []
+                for i, r in enumerate(reads):
+                    if i == n_before + 2 and sibs:
+                        # the first ordinary request is answered while the tree is full, before the last idle streams and the refused
+                        # request arrive
+                        steps += [{"app": [sibs[0], m]} for m in HTTP_MSGS]
+                    steps.append({"read": b2s(r)})
+                for s_ in sibs[1:]:
+                    steps += [{"app": [s_, m]} for m in HTTP_MSGS]
+                out.append({"family": "direct", "name": f"refused_{how}", "steps": steps, "cfg": {"keep_alive_max_requests": 1000}, "acts": ["refused", how, n_before, flood],
+                            "expect": {"refused": sid, "raises": how in ("rst_same_read", "goaway_same_read", "two_one_reset", "rst_same_read_body"),
+                                       "complete": [] if how == "goaway_same_read" else sibs, "complete_early": sibs[:1]}})
+    return out
+
+
+def refused_e2e_cases() -> List[dict]:
+    out = []
+    for n_before in (1, 2):
+        for k, how in enumerate(REFUSED_HOWS):
+            reads, sid, sibs = refused_session(n_before, 1001 + 99 * (k % 2), how, chain=k % 2 == 0)
+            # the ordinary requests travel with the preface, their applications answer while the rest arrives
+            head = b"".join(reads[:1 + n_before])
+            out.append({"family": "h2_refused", "name": f"refused_{how}", "proto": "h2", "reads": [b2s(x) for x in [head] + reads[1 + n_before:]], "scripts": ["ok"],
+                        "waits": {"2": 0.3, "3": 0.1}, "eof": True, "bounded": True, "refused": sid, "sibs": sibs, "how": how, "n_before": n_before})
+    return out
 
 
 def gen_direct(rng, idx: int) -> dict:
@@ -994,9 +1089,28 @@ def _check_direct(ctx: Ctx, cases: List[dict]) -> None:
             if any(("forgotten" in x or "unknown" in x or ":" in x or x.startswith("priority") or x.startswith("reset") or x == "recvRaised") for x in w):
                 ctx.distinct(w)
         ctx.sample({"family": "direct", "acts": case["acts"], "events": seq[:12]}, cap=3)
+        if case.get("name"):
+            ctx.distinct(["direct", case["name"], case["acts"]])
         # monitor on the implementation itself: nothing escaped the reader, the applications' final send or the send task
         if r.get("stuck"):
             ctx.count("direct.reader_waits_for_send_task", 1)
+        exp = case.get("expect")
+        if exp is not None and not r["error"]:
+            # the refused request stays on its stream: the tree refused it (`insert_stream` TooManyStreamsError), `reset_stream` was
+            # tried (and raised exactly when the client had already closed the stream / the connection in the same read), no
+            # application was started for it, and every ordinary request was answered to the end
+            ins = [e for e in r["log"] if e[0] == "prio" and e[1] == "insert_stream" and e[2] == exp["refused"]]
+            rst = [e for e in r["log"] if e[0] == "h2" and e[1] == "reset_stream" and e[2] == exp["refused"]]
+            reached = bool(ins) and ins[0][4] == "priority.TooManyStreamsError" and len(rst) == 1 and (rst[0][3] is not None) == exp["raises"]
+            ctx.count("direct.refused_request", f"{case['name']}:{'reset_stream raised ' + str(rst[0][3]) if rst and rst[0][3] else 'reset sent' if rst else 'no reset'}")
+            ended = {e[2] for e in r["log"] if e[0] == "h2" and e[1] == "end_stream" and e[3] is None}
+            if not reached:
+                ctx.violation("refused_request_not_refused", case, {"insert": ins, "reset": rst}, {**sig, "name": case["name"]})
+            if exp["refused"] in r["apps"]:
+                ctx.violation("refused_request_reached_application", case, r["apps"][exp["refused"]]["scope"], {**sig, "name": case["name"]})
+            lost = [s_ for s_ in exp["complete"] if s_ not in ended]
+            if lost:
+                ctx.violation("sibling_incomplete", case, {"not_ended": lost, "ended": sorted(ended)}, {**sig, "name": case["name"], "clause2": "sibling"})
         if r["error"]:
             trigger = "priority_next_recursion" if any(e[0] == "next" and e[1] == "raised" and e[2] == "RecursionError" for e in r["log"]) else "other"
             ctx.violation("handler_exception", case, {"error": r["error"], "events": seq[-6:]},
@@ -1046,6 +1160,9 @@ def run(ctx: Ctx) -> None:
     # corpus first
     check_e2e(ctx, corpus())
     direct = [gen_direct(ctx.rng, i) for i in range(ctx.budget(500, 8000))]
+    if REFUSED_CLOSED_FAMILY:
+        direct = refused_direct_cases() + direct
+        check_e2e(ctx, refused_e2e_cases())
     check_direct(ctx, direct)
     # HTTP/1 + WebSocket whole flow: LibWf / escape sites of total_h1 on adversarial direct-drive sessions of the real H11Protocol
     HT.check(ctx, HT.obs_corpus() + HT.names_corpus() + [HT.gen_case(ctx.rng, i) for i in range(ctx.budget(250, 5000))])
